@@ -40,14 +40,16 @@ def loadOne (w : World) (relpath : Str) (verifyEntry : Option Entry) : Except Er
   | some (.file m) =>
     match m.manifest with
     | none => throw .abstain
-    | some .corrupt => throw .compress
+    -- data the codec (or the UTF-8 decoder) rejects is reported by `ManifestFile.load` as a syntax error
+    -- (repair of finding F25; BadGzipFile, LZMAError, EOFError, UnicodeDecodeError escaped before)
+    | some .corrupt => throw .syntax
     | some (.broken pre) =>
       -- the lines are parsed as they arrive: a syntax error in the part delivered comes first
       match loadLines {} (splitLines (univNewlines pre)) with
       | .error .syntax => throw .syntax
       | .error .unsignedData => throw .unsigned
       | .error (.internal k) => throw (.internal k)
-      | .ok _ => throw .compress
+      | .ok _ => throw .syntax
     | some (.text t) =>
       match loadFile t with
       | .ok l => pure l.entries
